@@ -2,6 +2,7 @@ package rules
 
 import (
 	"fmt"
+	"go/token"
 	"go/types"
 	"sort"
 
@@ -254,7 +255,18 @@ func runC04(c *Ctx) {
 		}, "b.syncPeer = nil", nil, 1)
 		// handleNewPeerMsg
 		fn = c.fn("(*neutrino.blockManager).handleNewPeerMsg")
-		g := boolIs("isSyncCandidate(sp)", find(fn, callTo(bmM("isSyncCandidate"))), 0, true)
+		var g guard
+		if m := c.P.Method("neutrino", "blockManager", "isSyncCandidate"); m != nil && len(find(fn, callTo(m))) > 0 {
+			g = boolIs("isSyncCandidate(sp)", find(fn, callTo(m)), 0, true)
+		} else {
+			// the candidate test written out: sp.Services()&SFNodeNetwork == SFNodeNetwork
+			services := c.method(pPeer, "Peer", "Services")
+			isMask := func(v ssa.Value) bool {
+				b, ok := ir.Strip(v).(*ssa.BinOp)
+				return ok && b.Op == token.AND && (ir.DerivesFrom(b.X, valIsCallTo(services)) || ir.DerivesFrom(b.Y, valIsCallTo(services)))
+			}
+			g = equalIs("sp.Services()&SFNodeNetwork vs SFNodeNetwork", find(fn, binops(eqOps, isMask, func(v ssa.Value) bool { _, isC := v.(*ssa.Const); return isC })), true)
+		}
 		loc := c.method("headerfs", "BlockHeaderStore", "LatestBlockLocator")
 		cut := ir.Union(errCut(fn, find(fn, callTo(tip)), 2), errCut(fn, find(fn, callTo(loc)), 1))
 		c.mustFollow(fn, "new sync candidate", c.successEdges(g), callTo(bmM("startSync")), "b.startSync(peers)", cut, 1)
@@ -338,20 +350,28 @@ func runC04(c *Ctx) {
 
 		// handleAddPeerMsg / peerDoneHandler
 		fn = c.fn("(*neutrino.ChainService).handleAddPeerMsg")
-		var retTrue []ssa.Instruction
-		for _, in := range find(fn, isExit) {
-			if b, isC := ir.ConstBool(ir.RetVal(in.(*ssa.Return), 0)); !isC || b {
-				retTrue = append(retTrue, in)
-			}
+		psf := func(f string) *types.Var { return c.field("neutrino", "peerState", f) }
+		var regs []start
+		for _, in := range find(fn, anyOf(mapUpdate(loadsField(psf("outboundPeers"))), mapUpdate(loadsField(psf("persistentPeers"))))) {
+			regs = append(regs, afterInstr(c, in))
 		}
-		c.mustPrecede(fn, callTo(bmM("NewPeer")), "blockManager.NewPeer(sp)", func(in ssa.Instruction) bool {
-			for _, r := range retTrue {
-				if r == in {
-					return true
+		c.mustFollow(fn, "peer entered into the peer maps", regs, callTo(bmM("NewPeer")), "blockManager.NewPeer(sp)", nil, 2)
+		if fn.Signature.Results().Len() > 0 {
+			var retTrue []ssa.Instruction
+			for _, in := range find(fn, isExit) {
+				if b, isC := ir.ConstBool(ir.RetVal(in.(*ssa.Return), 0)); !isC || b {
+					retTrue = append(retTrue, in)
 				}
 			}
-			return false
-		}, "return true (peer accepted)", 1)
+			c.mustPrecede(fn, callTo(bmM("NewPeer")), "blockManager.NewPeer(sp)", func(in ssa.Instruction) bool {
+				for _, r := range retTrue {
+					if r == in {
+						return true
+					}
+				}
+				return false
+			}, "return true (peer accepted)", 1)
+		}
 		fn = c.fn("(*neutrino.ChainService).peerDoneHandler")
 		vk := c.method(pPeer, "Peer", "VersionKnown")
 		gv := boolIs("sp.VersionKnown()", find(fn, callTo(vk)), 0, true)
